@@ -298,8 +298,9 @@ def finish(pid: str, tier: str, seed: int, lean: dict, res: Result, assumptions:
         rc = 1
     cov = {
         'obligations': lean['obligations'], 'discharged': lean['discharged'],
-        'checker_cmd': f'cd {LEAN} && lake build && lake env lean <#print axioms of Props/{pid}.lean theorems>'
-                       + (' && lake env leanchecker MalVerif.Props.' + pid if tier == 'thorough' else ''),
+        'checker_cmd': f'cd {LEAN} && lake build && lake env lean <#print axioms of every theorem of Props/{pid}.lean'
+                       + ''.join(f', PropsGen/{m}.lean' for m in propsgen_modules(pid)) + '>'
+                       + (' && lake env leanchecker MalVerif.Props.' + pid + ''.join(f' MalVerif.PropsGen.{m}' for m in propsgen_modules(pid)) if tier == 'thorough' else ''),
         'trusted_base': trusted,
         'theorems': lean.get('axioms', {}),
         'grep_audit_hits': lean.get('grep_hits', []),
